@@ -314,6 +314,7 @@ class Gen:
         self.emit(f"{ind}broadcast use {{" + ", ".join(("crate::lemmas::" if g_.endswith("_lemmas") else "crate::prelude::") + g_ for g_ in groups) + "};")
         for it in rest:
             self.item(it, relsrc, contracts, container=None, ind=ind)
+        self.emit_lit_consts(ind)
         if file_extra:
             self.emit(f"{ind}// ---- side-car additions for {relsrc} (specification only)")
             self.emit(file_extra, {"sidecar": relsrc})
@@ -877,6 +878,8 @@ class Gen:
         # function-specific anchored rewrites; entries sharing a name are alternatives: exactly one
         # match in total per name
         hits = {}
+        if c.mode == "display-fmt":
+            body = self.rewrite_write_macro(body, relsrc, key)
         for name, rx, rep in c.rewrites:
             body, n = re.subn(rx, lambda m, rep=rep: m.expand(rep) + "\n" * m.group(0).count("\n"), body)
             hits[name] = hits.get(name, 0) + n
@@ -885,6 +888,88 @@ class Gen:
                 raise ExtractError(f"{relsrc}: {key}: function-specific rewrite {name} matched {n} times (anchor lost)")
             self.count(name)
         body = self.annotate_closures(body, relsrc, key, c)
+        return body
+
+    def lit_const(self, lit_body):
+        """R20/R1: a string literal used for formatting becomes a named constant whose byte value the
+        extractor computes from the literal and hands to Verus as an assumed ensures"""
+        if not hasattr(self, "lit_consts"):
+            self.lit_consts = {}
+        if lit_body not in self.lit_consts:
+            self.lit_consts[lit_body] = f"FMT_LIT_{len(self.lit_consts) + 1}"
+        return self.lit_consts[lit_body]
+
+    def emit_lit_consts(self, ind):
+        for lit_body, name in getattr(self, "lit_consts", {}).items():
+            bs = eval('"' + lit_body + '"').encode("utf-8")
+            self.emit(f"{ind}#[verifier::external_body]")
+            self.emit(f"{ind}pub exec const {name}: &'static str")
+            self.emit(f"{ind}    ensures sb({name}) =~= seq![" + ", ".join(f"{b}u8" for b in bs) + "]", {"generated": "R20 literal"})
+            self.emit(f'{ind}{{ "{lit_body}" }}')
+        self.lit_consts = {}
+
+    def rewrite_write_macro(self, body, relsrc, key):
+        """R20: `write!(f, "lit{}lit{}..", a, b, ..)` -> `{ fmt_lit(f, "lit")?; fmt_arg(f, &(a))?; ..; Ok(()) }`
+        and `f.write_str(x)` -> `fmt_lit(f, x)`: the meaning of a format string whose only holes are
+        plain `{}` (pieces and arguments written in order, stopping at the first error)."""
+        toks = lex(body)
+        edits = []
+        i = 0
+        while i < len(toks):
+            t = toks[i]
+            if t.kind == "ident" and t.text == "write" and i + 2 < len(toks) and toks[i + 1].text == "!" and toks[i + 2].text == "(":
+                close = match_close(toks, i + 2)
+                inner = body[toks[i + 2].end:toks[close].start]
+                args = split_top(inner)
+                if len(args) < 2:
+                    raise ExtractError(f"{relsrc}: {key}: write! with too few arguments")
+                fexpr = args[0].strip()
+                lit = args[1].strip()
+                m = re.fullmatch(r'"((?:[^"\\]|\\.)*)"', lit)
+                if not m:
+                    raise ExtractError(f"{relsrc}: {key}: write! format is not a string literal")
+                fmt = m.group(1)
+                exprs = [a.strip() for a in args[2:] if a.strip()]
+                pieces = []
+                cur = ""
+                j = 0
+                holes = 0
+                while j < len(fmt):
+                    ch = fmt[j]
+                    if fmt.startswith("{{", j):
+                        cur += "{"; j += 2
+                    elif fmt.startswith("}}", j):
+                        cur += "}"; j += 2
+                    elif fmt.startswith("{}", j):
+                        pieces.append(("lit", cur)); cur = ""
+                        pieces.append(("arg", holes)); holes += 1; j += 2
+                    elif ch in "{}":
+                        raise ExtractError(f"{relsrc}: {key}: write! format uses a hole other than plain {{}} (unsupported)")
+                    else:
+                        cur += ch; j += 1
+                pieces.append(("lit", cur))
+                if holes != len(exprs):
+                    raise ExtractError(f"{relsrc}: {key}: write! holes and arguments differ")
+                stmts = []
+                for kind, v in pieces:
+                    if kind == "lit":
+                        if v:
+                            stmts.append(f'fmt_lit({fexpr}, {self.lit_const(v)})?;')
+                    else:
+                        stmts.append(f"fmt_arg({fexpr}, &({exprs[v]}))?;")
+                rep = "{ " + " ".join(stmts) + " Ok(()) }"
+                edits.append((t.start, toks[close].end, rep))
+                self.count("R20_write_macro")
+                i = close
+            i += 1
+        for s_, e_, rep in reversed(edits):
+            nl = body[s_:e_].count("\n")
+            body = body[:s_] + rep + ("\n" * nl) + body[e_:]
+        def _ws(m):
+            return "fmt_lit(" + m.group(1) + ", " + self.lit_const(m.group(2)[1:-1]) + ")"
+        body, n1 = re.subn(r'\b(\w+)\.write_str\(\s*("(?:[^"\\]|\\.)*")\s*\)', _ws, body)
+        body, n2 = re.subn(r"\b(\w+)\.write_str\(", r"fmt_lit(\1, ", body)
+        self.count("R20_write_str", n1 + n2)
         return body
 
     def annotate_closures(self, body, relsrc, key, c):
